@@ -223,11 +223,11 @@ def check(pid, tier, seed):
         log("  violation: " + what)
     if unreplayed:
         log("  further failing harnesses (not replayed, %d confirmed already): %s" % (MAX_REPLAYS, ", ".join(unreplayed)))
+    for i in inconclusive:
+        log("INCONCLUSIVE: " + i)
     if violations:
         return 1
     if inconclusive:
-        for i in inconclusive:
-            log("INCONCLUSIVE: " + i)
         return 2
     print("OK property=%s tier=%s wall=%.0fs" % (pid, tier, wall))
     return 0
